@@ -40,3 +40,6 @@ CFG = {
     'note': 'a difference on a name is an undocumented accepted / documented rejected name or a different channel; a '
             'difference on a run line is a run number whose complete map differs from the proved one',
 }
+
+# a run with fewer cases than half of what the quick tier generates today would be a (partly) vacuous differential
+CFG["min_cases"] = 8741
